@@ -243,7 +243,8 @@ def run(tier):
         with open(p, "w") as fh:
             fh.write(text)
         files.append((p, k, len(rows[k:k + shard])))
-    bad, errs = S.run_files(files)
+    from . import termcases
+    bad, errs = termcases.run(files)
     stats.update({"cases": len(rows), "disagreements": len(bad), "case_file_errors": len(errs), "examples": [meta[j] for j in bad[:5]]})
     chk.cov["correspondence"] = stats
     for j in bad[:5]:
